@@ -1311,9 +1311,7 @@ func (p *parser) parseJob(id *String, n *yaml.Node) *Job {
 				id.Value,
 			)
 		}
-		if len(stepsOnlyKeys) == 0 {
-			ret.WorkflowCall = call
-		}
+		ret.WorkflowCall = call
 	} else {
 		// When not a reusable call
 		if ret.Steps == nil {
